@@ -145,3 +145,34 @@ def k5(res, tier, seed, tag="k5", n_quick=25, n_thorough=250):
         res.broke("correspondence-error", "K5", e)
     for i in fails[:5]:
         res.broke("correspondence", "K5 " + meta[i]["func"], meta[i])
+
+def k15(res, tier, seed, tag="k15"):
+    """K15: hand model Model/SDM.v (ScaledDistributionMapping, absolute) vs the real apply_on_window, with the
+    rational location-scale family as distribution; tie-free dyadic samples (np.argsort is not stable)."""
+    logging.getLogger("ibicus").setLevel(logging.CRITICAL)
+    import ibicus.debias as D
+    r = C.rng_for(seed, tag)
+    n = 25 if tier == "quick" else 250
+    cc = C.CoqCases(tag, ["QL", "Dist", "Ecdf", "RatLS", "SDM", "CorrBase"], per_file=40)
+    meta = []
+    rat = ratls_model()
+    with warnings.catch_warnings():
+        warnings.simplefilter("ignore")
+        for i in range(n):
+            no, nh, nf = r.randint(3, 12), r.randint(3, 12), r.randint(2, 12)
+            lo, hi = r.choice([(0, 40), (-6, 6), (250, 300)])
+            o, h, f = sample(r, no, lo, hi, 16, True), sample(r, nh, lo, hi, 16, True), sample(r, nf, lo, hi, 16, True)
+            d = D.ScaledDistributionMapping(distribution=rat, mapping_type="absolute")
+            out = d.apply_on_window(fl(o), fl(h), fl(f))
+            if not np.all(np.isfinite(out)):
+                res.count("k15-nonfinite-skipped"); continue
+            tol = C.tol_for(list(out)) * 1000
+            cc.add("close_list (sdm_absolute ratls snd %s %s %s) %s %s" % (C.ql(o), C.ql(h), C.ql(f), C.ql(out), C.q(tol)))
+            m = dict(func="ScaledDistributionMapping._apply_on_window_absolute_sdm", obs=[str(x) for x in o], cm_hist=[str(x) for x in h], cm_future=[str(x) for x in f])
+            meta.append(m); res.case(("sdm-abs", nf > no, lo < 0), sample=m if len(res.samples) < 5 else None)
+    fails, errors = cc.run()
+    res.components["K15 Model/SDM.v (hand model) vs ScaledDistributionMapping._apply_on_window_absolute_sdm"] = dict(cases=len(cc.cases), disagreements=len(fails), errors=len(errors))
+    for e in errors[:3]:
+        res.broke("correspondence-error", "K15", e)
+    for i in fails[:5]:
+        res.broke("correspondence", "K15 " + meta[i]["func"], meta[i])
